@@ -1,1 +1,14 @@
 import BU.Properties.C13
+#print axioms C13.copyTx_fresh
+#print axioms C13.copyTxIn_fresh
+#print axioms C13.copyTxOut_fresh
+#print axioms C13.copyWit_fresh
+#print axioms C13.copyScript_fresh
+#print axioms C13.newTxIn_default_fresh
+#print axioms C13.frame
+#print axioms C13.reach_old
+#print axioms C13.copy_isolated
+#print axioms C13.legacy_digest_pure
+#print axioms C13.legacy_digest_value
+#print axioms C13.digests_depend_on_skeleton
+#print axioms C13.order_independent
